@@ -362,7 +362,19 @@ fn needed_refs(spec: &Value) -> Vec<(String, Value)> {
 // ---------------------------------------------------------------------------
 
 fn panic_location(exit: &str) -> String {
-    // "panic:<msg> @ <file>:<line>"
+    // "panic:<msg> [in <innermost server frame>] @ <file>:<line>"
+    if let Some((_, rest)) = exit.rsplit_once(" [in ") {
+        if let Some((frame, loc)) = rest.split_once("] @ ") {
+            if loc.contains("crates/") {
+                return loc[loc.find("crates/").unwrap()..].trim().to_string();
+            }
+            if !frame.is_empty() {
+                // strip generic hashes: keep the path of the function
+                let f = frame.split("::h").next().unwrap_or(frame);
+                return f.to_string();
+            }
+        }
+    }
     match exit.rsplit_once(" @ ") {
         Some((_, loc)) => {
             let loc = loc.trim();
